@@ -37,7 +37,7 @@ CLSN = 'PrefetchedCourierServer'
 
 
 def run(ctx: Ctx):
-  for r in (r1, r2, r3, r4, r5, r8, r12, r13, r14, r15, r16, r18, r19):
+  for r in (r1, r2, r3, r4, r5, r8, r12, r13, r14, r15, r16, r18, r19, r20):
     ctx.guard(r)
   from mlmverif.props._queue import model as qmodel
   from mlmverif.props import c05
@@ -750,10 +750,51 @@ def r19(ctx: Ctx):
   ctx.floor(rule, 2, n)
 
 
+def r20(ctx: Ctx):
+  rule = 'R-C15-20'
+  ctx.rule(rule, '"never leaves a request blocked": a prefetch queue is installed only once its PRODUCER is certain. In the method'
+           ' that installs a new queue (`self._generator = IteratorQueue(...)`), the construction of the generator'
+           ' (`maybe_make(<lazy>)`) and every `raise` that rejects its result come BEFORE the store (CFG dominance /'
+           ' no raise reachable between the store and the start of the thread). A queue installed first has no producer'
+           ' when the construction raises or returns a non-iterable: the init reports the error, but every later'
+           ' next-batch request blocks for ever on it (the stopped previous queue would have answered at once)')
+  ci = ctx.repo.cls(CS, CLSN)
+  n = 0
+  for name, m in ci.methods.items():
+    if name == '__init__':
+      continue
+    g = None
+    for x in ast.walk(m.node):
+      if not (isinstance(x, ast.Assign) and any(is_self_attr(t) and t.attr == '_generator' for t in x.targets)
+              and isinstance(x.value, ast.Call) and unparse(x.value.func).endswith('IteratorQueue')):
+        continue
+      n += 1
+      g = g or cfgm.cfg_of(m.node)
+      store = [nd for nd in g.nodes if nd.ast is x]
+      what = f'{CLSN}.{name}: the new queue is installed after its generator was constructed and checked'
+      if not store:
+        raise AnalysisError(f'{rule}: install statement not found in the CFG of {name}')
+      made = lambda nd: any(isinstance(c, ast.Call) and unparse(c.func).endswith('maybe_make') for c in cfgm.node_exprs(nd))
+      late_make = g.dominates(made, store[0], cfgm.only_normal) is not None
+      after = g.reachable([store[0]], edge_ok=cfgm.only_normal)
+      late_raise = [nd for nd in after if isinstance(nd.ast, ast.Raise)]
+      if late_make or late_raise:
+        ctx.fail(rule, m, what,
+                 f'`{unparse(x)[:60]}` is executed ' + ('before the generator is constructed (`maybe_make`)' if late_make else
+                 f'before `{unparse(late_raise[0].ast)[:50]}` can still reject it') + ': when the construction fails, the installed queue'
+                 ' has no producer and never ends — later next-batch requests wait on it for ever', node=x)
+      else:
+        ctx.ok(rule, m, what, x)
+  ctx.floor(rule, 1, n)
+
+
 from mlmverif.selfcheck import B, OK  # noqa: E402
 
 _F = 'chainables/courier_server.py'
 VARIANTS = [
+    B('queue-installed-before-the-generator-exists', 'chainables/courier_server.py',
+      "      logging.debug('chainable: %s', f'Constructing generator: {maybe_lazy}')\n      result = lazy_fns.maybe_make(maybe_lazy)\n      if not isinstance(result, Iterable):\n        raise TypeError(f'{result} is not a generator, but a {type(result)}.')\n      self._generator = iter_utils.IteratorQueue(\n          self.prefetch_size,\n          ignore_error=self._ignore_error,\n          name=f'prefetch_queue@{self.address}',\n      )\n",
+      "      self._generator = iter_utils.IteratorQueue(\n          self.prefetch_size,\n          ignore_error=self._ignore_error,\n          name=f'prefetch_queue@{self.address}',\n      )\n      logging.debug('chainable: %s', f'Constructing generator: {maybe_lazy}')\n      result = lazy_fns.maybe_make(maybe_lazy)\n      if not isinstance(result, Iterable):\n        raise TypeError(f'{result} is not a generator, but a {type(result)}.')\n", 'R-C15-20'),
     B('revert-shutdown-only-for-a-threaded-server', 'chainables/courier_server.py',
       "      if self._server is not None and self._server.has_started:\n        if self._shutdown_callback is not None:",
       "      if self.has_started:\n        assert self._server is not None, 'Server is not built.'\n        if self._shutdown_callback is not None:", 'R-C15-19'),
